@@ -19,7 +19,7 @@ RULE = ("case = (field-key sequence over {a,A,b,B,ab}, middleware spec); all key
         "{alphabetical, normalise, custom(order, case_sensitive)}; non-trivial = >= 2 fields whose keys collide case-insensitively or tie in "
         "the sort key; distinct = distinct (keys, middleware spec)")
 ASSUMPTIONS = ["field values are opaque (unique tokens) and must be carried unchanged"]
-MIN = {"alphabetical": (3000, 10000), "custom": (50000, 200000), "normalise": (3000, 10000), "idempotent": (50000, 200000), "order_rejected": (500, 2000), "pipeline_step": (50000, 300000)}
+MIN = {"alphabetical": (3000, 10000), "custom": (50000, 200000), "normalise": (3000, 10000), "idempotent": (50000, 200000), "order_rejected": (500, 2000), "pipeline_step": (50000, 90000)}
 
 KEYS = ["a", "A", "b", "B", "ab"]          # case variants and a key that contains other keys
 ORDER_POOL = ["a", "A", "b", "ab", "zz"]
